@@ -405,6 +405,16 @@ fn part_d(chooser: Chooser, nat: usize, votes: usize, conf: usize, faults: bool,
         }
         _ => {}
     }
+    // every node is configured with a request filter (vetoing one IP): a node that becomes a
+    // server later must consult the filter it was configured with
+    let vetoed = SocketAddrV4::new(Ipv4Addr::new(66, 66, 66, 66), 6000);
+    let allowed = SocketAddrV4::new(Ipv4Addr::new(67, 1, 1, 1), 6000);
+    cfg.server_settings = Some(dht::ServerSettings { filter: Box::new(crate::srv::VetoFilter { ip: *vetoed.ip() }), ..Default::default() });
+    let vetoed_ep = w.add_endpoint(vetoed);
+    let allowed_ep = w.add_endpoint(allowed);
+    let mut filter_probe_sent = false;
+    let mut vetoed_answered = false;
+    let mut allowed_answered = false;
     let ext = cfg.addr();
     w.faults.menu = vec![Fate::Deliver(DEFAULT_LATENCY), Fate::Drop];
     w.faults.enabled = faults;
@@ -444,7 +454,13 @@ fn part_d(chooser: Chooser, nat: usize, votes: usize, conf: usize, faults: bool,
             w.send_raw(net.eps[0].addr, to, krpc::q_ping(&probe_tid, &net.eps[0].id));
             probe_sent = true;
         }
-        let stop = [start + 5 * MIN, start + 6 * MIN, start + 10 * MIN, start + 24 * MIN, start + 32 * MIN, h].into_iter().filter(|t| *t > w.now).min().unwrap_or(h);
+        if !filter_probe_sent && w.now >= start + 33 * MIN {
+            let to = w.nodes[a].cfg.addr();
+            w.send_raw(vetoed, to, krpc::q_get_peers(&[0x76, 0x65, 0x74, 0x6f], &[0x66; 20], &T, false));
+            w.send_raw(allowed, to, krpc::q_get_peers(&[0x61, 0x6c, 0x6c, 0x6f], &[0x67; 20], &T, false));
+            filter_probe_sent = true;
+        }
+        let stop = [start + 5 * MIN, start + 6 * MIN, start + 10 * MIN, start + 24 * MIN, start + 32 * MIN, start + 33 * MIN, h].into_iter().filter(|t| *t > w.now).min().unwrap_or(h);
         let Some(ev) = w.step(stop) else {
             if stop >= h {
                 break;
@@ -453,6 +469,8 @@ fn part_d(chooser: Chooser, nat: usize, votes: usize, conf: usize, faults: bool,
             continue;
         };
         match &ev {
+            Event::EndpointRecv { ep, .. } if *ep == vetoed_ep => vetoed_answered = true,
+            Event::EndpointRecv { ep, .. } if *ep == allowed_ep => allowed_answered = true,
             Event::EndpointRecv { ep, dgram } => {
                 let i = net.index_of(*ep).expect("ep");
                 if let Some(k) = Krpc::parse(&dgram.bytes) {
@@ -595,6 +613,12 @@ fn part_d(chooser: Chooser, nat: usize, votes: usize, conf: usize, faults: bool,
             problems.push(("client-mode-wire-behaviour".into(), format!("{ctx}: {b}")));
         }
         let s = w.snapshot(a);
+        if vetoed_answered {
+            problems.push(("vetoed-request-answered".into(), format!("{ctx}: a request from the address the configured request filter vetoes was answered at minute 33 (server mode: {})", s.core.server_mode)));
+        }
+        if s.core.server_mode && nat == 0 && !allowed_answered {
+            problems.push(("server-does-not-answer".into(), format!("{ctx}: in server mode at minute 33 but a get_peers from a stranger got no reply")));
+        }
         match (s.core.server_mode, probe_reply) {
             (true, None) if nat == 0 => problems.push(("server-does-not-answer".into(), format!("{ctx}: in server mode at minute 32 but a ping from a known peer got no reply"))),
             (true, Some(Some(r))) if r != 0 => problems.push(("server-mode-messages-flagged-read-only".into(), format!("{ctx}: the reply to a ping at minute 32 is flagged ro={r}"))),
